@@ -11,13 +11,13 @@ const Prelude = "func xf(a){a}; &xc = 1+1; xa = [1,2]; xd = {'k':1}"
 
 // Values are the value kinds substituted into operand slots.
 var Values = []string{
-	"0", "3", "-2", "4611686018427387904", "1000000000000", "1.5", "0.0",
+	"0", "3", "-2", "4611686018427387904", "1000000000000", "9223372036854775807", "-9223372036854775807", "1.5", "0.0",
 	"''", "'ab'", "'中文x'", "null", "[]", "[1,2]", "{}", "{'k':1}",
 	"xf", "ceil", "xc", "&xc", "xa.sum", "this",
 }
 
 // ValuesSmall is the reduced list for three-hole templates.
-var ValuesSmall = []string{"0", "3", "-2", "1.5", "'ab'", "null", "[1,2]", "{'k':1}", "xf", "4611686018427387904"}
+var ValuesSmall = []string{"0", "3", "-2", "1.5", "'ab'", "null", "[1,2]", "{'k':1}", "xf", "4611686018427387904", "-9223372036854775807"}
 
 var binOps = []string{"+", "-", "*", "/", "%", "^", "**", "??", "<", "<=", "==", "!=", ">=", ">", "&", "|", "&&", "||"}
 
@@ -35,7 +35,7 @@ var Templates1 = []string{
 	"x = V; x.k = 1; x", "x = V; x[0] = 1; x", "x = V; x['k'] = 1; x", "x = V; x[0:1] = [9]; x", "x = V; x[:] = V; x", "x = V; y = x; y.push(1); x",
 	"V[0]", "V[-1]", "V['k']", "V[0:1]", "V[:]", "V[1:]", "V[:-1]", "V[0:1:1]", "[1,2,3][V]", "'abc'[V]", "{'k':1}[V]", "[1,2,3][V:]", "'abc'[:V]", "[1,2,3][0:1:V]",
 	"[V..3]", "[1..V]", "[V..V]", "[1,2]*V", "V*[1,2]", "[]*V", "x=[1]; x[V]=2", "x=[1,2,3]; x[V:]=[1]", "x={}; x[V]=2; x", "x=[1,2]; x[0:1]=V; x",
-	"^stA:V", "^stA+V", "^stA-V", "^st&A=V", "^stA*2:V", "^stA*:V", "^st'a b':V",
+	"^stA:V", "^stA+V", "^stA-V", "^st&A=V", "^stA*2:V", "^stA*:V", "^st'a b':V", "^stA-1 ? V : 2", "^stA-0 || V", "^stA-=V", "^stA+=V", "^stA-V B+V", "^stA:1 ? V",
 	"this.z = V; this.z", "&xc.k = V; &xc.k", "xd.j = V; xd", "xd.k.j = V",
 	"V kh", "[1,2,V] kh 2",
 }
